@@ -17,9 +17,10 @@ PROPERTY = "C01"
 
 # CODE VARIANT FLAGS — the values that match the code in /repo as it is now.  The composition layer has no defect flag of its own: it
 # follows the flags of the layers it is built from (so a repair recorded there is picked up here without an edit): every imported flag
-# holds its repaired value (FRAMES_VARIANT 0, TEXT_FLAGS "00000000", TABLE_FLAGS "0000000").  The `except` fallbacks are never taken in a
-# normal run; their literals date from before fixes f5f2be9 / f7ecf83 (rstripCountsChars, columnsZeroCount = rich 9.10.0 as found).
-try:  # frames (Model/Frames.lean `Variant`): bitmask 1 zeroWidthChild, 2 ruleRightRepeat, 4 rstripCountsChars, 8 columnsZeroCount
+# holds its repaired value (FRAMES_VARIANT 0, TEXT_FLAGS "00000000", TABLE_FLAGS "0000000"; 1 = rich 9.10.0 as found, before the fix: commits).
+# The `except` fallbacks are never taken in a normal run; their literals are the same repaired values.
+try:  # frames (Model/Frames.lean `Variant`): bitmask 1 zeroWidthChild, 2 ruleRightRepeat, 4 rstripCountsChars, 8 columnsZeroCount; of the
+    # further bits of props/c08.py the composition model reads 32 titleAtConsoleWidth and 64 ruleNoTitleEnd (Model/Layout.lean `Cfg`)
     from props.c08 import VARIANT as FRAMES_VARIANT
 except Exception:  # pragma: no cover
     FRAMES_VARIANT = 0  # every frames defect is repaired in /repo
@@ -233,19 +234,27 @@ def run(ctx):
         account(ctx, chunk)
     ctx.flush()
     ctx.rule = (
-        "hand-written corner trees (one per constructor and option family) x every width 1..smin+13 x two console widths, then seeded random "
+        "hand-written corner trees (one per constructor and option family; crop / ellipsis / no_wrap texts whose character count equals a width while "
+        "their cell count does not; ratio=0 tables) x every width 1..smin+13 x four consoles (width 80, width 20, 60 ASCII-only, 60 legacy-Windows "
+        "truecolor), then seeded random "
         "renderable trees (depth <= 4; text with spans/justify/overflow/no_wrap over ASCII, CJK, emoji, combining and zero-width code points, "
-        "newlines, tabs; padding, panel, align, constrain, styled, __rich__ casts, measure-less objects, groups, rules, bars, progress bars, "
+        "newlines, tabs; str renderables with markup; padding, panel, align, constrain, styled, __rich__ casts, measure-less objects, groups, rules, bars, "
+        "progress bars, "
         "tables with every table/column option, columns, trees) x widths smin-2..smin+12 densely and up to 200 x console widths {12,40,80,200} "
-        "x outer justify/overflow/no_wrap; distinct = distinct canonical requests"
+        "(a quarter of them ASCII-only / legacy-Windows / with a colour system) x outer justify/overflow/no_wrap; distinct = distinct canonical requests"
     )
     ctx.assumptions += [
-        "console: UTF-8, not legacy Windows, no colour system, tab_size 8 (tables and columns are modelled under this console only)",
+        "console: tab_size 8, safe_box on, no_color off, height 25; UTF-8 or ASCII-only encoding, legacy Windows on / off and the colour systems "
+        "None / standard / truecolor are all generated and modelled (box substitution, tree guides, rule characters, progress bar)",
         "styles are opaque: only the text and its segmentation are modelled",
         "Bar/ProgressBar numbers are integers or dyadic fractions (exact in double arithmetic)",
-        "C01's domain (evaluated directly only there; the correspondence covers everything): no text with effective overflow='ignore' and no "
-        "explicit end='' in exposed position, Constrain/Align not narrower than the child's structural minimum, exposed tables have columns "
-        "free to wrap (no width/min_width/no_wrap, no active ratio)",
+        "C01's domain (lib_layout.domain; evaluated directly only there and for W >= the structural minimum; the correspondence covers everything), "
+        "in exposed position: no text with effective overflow='ignore' or an end other than newline / '', every group member but the last ends "
+        "its line (a ProgressBar followed by a sibling is classified as the known finding progressbar-no-newline), table title / caption not "
+        "overflow='ignore' and ending in newline, tables with columns free to wrap (ratio columns included) or with width / min_width / no_wrap "
+        "columns that meet the budget of C07 width_bound_general (a root table whose min_width binds is evaluated against W + the min_width floors; "
+        "a nested one is skipped), no Columns(width=0); wider than the theorem's Dom: Constrain / Align at any inner width, Table(width=...) and "
+        "Columns(width>=1) are evaluated everywhere",
     ]
 
 
@@ -274,18 +283,21 @@ MANIFEST = {
     "`render` instantiates the oracles of the finished layers (Text.wrap C02, Text.render C05, frames C08, table algorithm C07, line shaping "
     "C13) with itself.  `render_fits` / `rendered_lines_fit`: by structural induction over the tree, for every options and every width w at or "
     "above the structural minimum `smin` (borders + padding + one cell, two with a double-width character, per innermost column), no line of "
-    "Console.render's Segment stream is wider than w — for EVERY code variant of the lower layers except the as-found `leading` (in particular "
-    "for today's fully repaired code): containers that crop (padding, panel, table, columns, tree) need nothing of their children, the "
+    "Console.render's Segment stream is wider than w — for EVERY code variant of the lower layers except the as-found `leading` and the as-found "
+    "panel-title width (before fixes dd342b5 / 0e1edf7), in particular for the fully repaired code now in /repo: containers that crop (padding, panel, table, columns, tree) need nothing of their children, the "
     "pass-through ones (group, styled, constrain, align, casts) use the induction hypothesis, text uses wrap/truncate (C02), tables — any "
-    "number of columns, ratio columns included — use the width bound of `_calculate_column_widths` for columns free to wrap.  Every exclusion "
+    "number of columns, ratio columns included — use the width bound of `_calculate_column_widths` for columns free to wrap, or C07's "
+    "`width_bound_general` for arbitrary columns within the budget (`table_general_bound`).  Every exclusion "
     "of the domain `Dom` carries a machine-checked witness that the bound fails there (`excluded_*`, `known_progressbar_in_group_overflows`, "
-    "`finding_ratio_zero_column_overflows`) or is marked NOT DISCHARGED.  Tie: ~43k (quick) / ~600k (thorough) renderings of corner trees and "
+    "`old_ratio_zero_column_overflows`) or is marked NOT DISCHARGED.  Tie: ~43k (quick) / ~600k (thorough) renderings of corner trees and "
     "seeded random trees (depth <= 4, all options, ASCII/CJK/emoji/combining/zero-width content, newlines, tabs, str renderables with markup, "
     "styled titles) compared character for character with real Console.render (not Console.print), widths smin-2..smin+12 densely and up to "
     "200, console widths 12..200, ASCII-only / legacy-Windows / colour consoles, objects re-rendered to expose kept state; smin computed "
     "independently in Python and cross-checked; the property evaluated directly on rich's own output on a domain WIDER than the theorem's "
     "(ratio tables, Constrain/Align at any width, Columns(width>=1), Table(width)).",
-    "note": "Findings: progressbar-no-newline (F23, known) and table-ratio-zero-column (found by this check, repaired by fix 75c2776, "
+    "note": "Variant flags (imported from props/c08.py, c02.py, c07.py; current values, all repaired): FRAMES_VARIANT 0, TEXT_FLAGS 00000000, "
+    "TABLE_FLAGS 0000000 (1 = rich 9.10.0 as found).  Findings: progressbar-no-newline (F23, known, not repaired: the check prints "
+    "KNOWN-FINDING lines for it, site Console.render) and table-ratio-zero-column (found by this check, repaired by fix 75c2776, "
     "witness `old_ratio_zero_column_overflows`).  Domain `Dom` of the theorem: text/str not overflow='ignore' and end in {newline, ''}; "
     "every group member but the last ends its line; tables with columns free to wrap (any number of columns, ratios included) OR "
     "arbitrary columns (width / max_width / no_wrap) within C07's budget `tableBudget`, with the exact bound `table_general_bound` "
@@ -295,11 +307,11 @@ MANIFEST = {
     "real rich): Constrain/Align narrower than the child's structural minimum, Table(width) below one cell per column, "
     "Columns(width>=1) — all three reduce to one missing arithmetic fact, `_calculate_column_widths` of free columns BELOW one cell per "
     "column never exceeds one cell per column (and, for Columns(width), the last-resort ratio_reduce path), which would let the induction "
-    "be restated as `no line wider than max(W, smin)`.  Outside the model (driver answers `unmodelled`; 0 requests on today's code): a "
+    "be restated as `no line wider than max(W, smin)`.  Outside the model (driver answers `unmodelled`; 0 requests on the code in /repo as it is now): a "
     "__rich__ that returns another __rich__ object, a raising expand_tabs; styles are not modelled (a str is modelled as the Text render_str "
     "makes of it; rule titles are one-line simple texts; the spans of a styled panel/rule title are not modelled — they only matter when an over-long line is cropped exactly at a zero-width character, seen once in 1.7M cases).  `Text.Inv` of the wrapped-and-joined text is checked at run time by the model; "
     "the panel title's end/no_wrap/overflow fields are re-asserted by a record update in the model.  smin reads Columns as one column per "
     "item.  Observation (C08's ground): a Rule truncates a Text title object in place.  Trusted: Lean kernel, axioms "
-    "propext/Classical.choice/Quot.sound, translator, correspondence harness; variant flags follow props/c02.py, c07.py, c08.py.",
+    "propext/Classical.choice/Quot.sound, translator, correspondence harness.",
     "design_ref": "DESIGN.md section 7, C01/C07/C08/C09",
 }
